@@ -82,6 +82,7 @@ def run(sc, workdir):
     kept = [p for p in sel if p not in removed]
     # ---- new parameters and translation (input data; drawn from a small expression grammar)
     newids = ["vn%d" % (k + 1) for k in range(len(shape["new"]))]
+    samename = sc.get("directed") == "intermediate+dispersed" and rng.random() < 0.5
     # a new parameter need not inherit the type of the parameter it replaces (e.g. a volume
     # parameter may be replaced by untyped ones; then no new parameter is dispersible)
     typ = removed[0].type if rng.random() < 0.65 else ""
@@ -98,6 +99,11 @@ def run(sc, workdir):
     form = rng.choice(["affine", "product", "quotient", "intermediate"])
     if directed:
         form = "intermediate"
+    if samename and len(removed) == 1:
+        # a new parameter may keep the name of the base parameter it replaces (a change of unit, say); only with a
+        # single replaced parameter, so that no later line of the translation refers to the reused name
+        newids[0] = removed[0].id
+        n1 = newids[0]
     n1 = newids[0]
     n2 = newids[1] if len(newids) > 1 else None
     first = removed[0].id
@@ -220,7 +226,10 @@ def run(sc, workdir):
         dn = dinfo.parameters
         if dim == "1d" and any(p.name == n1 and p.polydisperse and p.type not in ("orientation", "magnetic") for p in dn.call_parameters):
             pdp = dict(dpars)
-            pdp.update({n1 + "_pd": 0.25, n1 + "_pd_n": rng.choice([3, 5]), n1 + "_pd_type": rng.choice(["gaussian", "rectangle"])})
+            # (directed derivations: a mesh of more than 100 points, which the compiled kernel walks slice by slice;
+            # on bases with a validity region part of it is rejected)
+            pdp.update({n1 + "_pd": 0.25, n1 + "_pd_n": (104 if sc.get("directed") else rng.choice([3, 5])),
+                        n1 + "_pd_type": rng.choice(["gaussian", "rectangle"])})
             nq = dk.q_input.nq
             both = bool(base_info.have_Fq)
             mev = {"tid": tid, "ev": "Mean", "trace": "mean", "model": dinfo.id, "dim": dim, "nq": nq, "both": both,
